@@ -157,7 +157,7 @@ def helper_units(variant):
                 if check_shape(ctx, fn, "%s/prod3/d%d" % (pre, d), r, (d, d, d)):
                     for i, j, k in itertools.product(R, R, R):
                         check(ctx, fn, "%s/prod3/d%d/%d%d%d" % (pre, d, i, j, k), E(r, (i, j, k)), E(u, (i,)) * E(v, (j,)) * E(w, (k,)),
-                              clause="prod(u,v,w)[i,j,k] == u_i v_j w_k")
+                              clause="prod(u,v,w)[i,j,k] == u_i v_j w_k", replay=dict(RP, name="prod3", d=d))
                 f, fn = F("mul")
                 r = f(A, u)
                 if check_shape(ctx, fn, "%s/mul-mv/d%d" % (pre, d), r, (d,)):
@@ -312,3 +312,45 @@ PERM3 = [((0, 1, 2), 1), ((1, 2, 0), 1), ((2, 0, 1), 1), ((0, 2, 1), -1), ((2, 1
 
 UNITS["helpers/np"] = helper_units("np")
 UNITS["helpers/jax"] = helper_units("jax")
+
+
+def jaxfield_operators(ctx):
+    """contract JaxDiscreteField.__add__/__sub__/__rsub__/__mul__/__rmul__/__truediv__/__rtruediv__/__pow__/__getitem__:
+    the field behaves in arithmetic exactly as its value array (operand order preserved)."""
+    install_fake_jax()
+    from skfem.autodiff import JaxDiscreteField as DF
+    a, b = T("p", ()), T("q", ())
+    fa, fb = DF(a, grad=T("g", (2,))), DF(b)
+    A, B = E(a), E(b)
+    import operator as op
+    cases = [("add", lambda x, y: x + y, A + B), ("sub", lambda x, y: x - y, A - B), ("mul", lambda x, y: x * y, A * B),
+             ("truediv", lambda x, y: x / y, A / B)]
+    for name, f, want in cases:
+        fn = ctx.function(getattr(DF, "__%s__" % name))
+        for lab, x, y in (("field-field", fa, fb), ("field-array", fa, b), ("field-number", fa, 2.5)):
+            w = f(A, B if lab != "field-number" else 2.5)
+            check(ctx, fn, "jaxfield/%s/%s" % (name, lab), E(f(x, y)), w, hyps=[tm.ne(tm.lift(B), tm.const(Fraction(0), tm.REAL))],
+                  clause="(field %s other) == value %s other" % (name, name), replay=dict(kind="jaxfield", op=name, form=lab))
+    for name, f in (("rsub", lambda x, y: y - x), ("rmul", lambda x, y: y * x), ("rtruediv", lambda x, y: y / x)):
+        fn = ctx.function(getattr(DF, "__%s__" % name))
+        for lab, y in (("array-field", b), ("number-field", 2.5)):
+            # numpy would broadcast an ndarray on the left itself; call the reflected method as Python does for numbers
+            got = getattr(fa, "__%s__" % name)(y)
+            yy = B if lab == "array-field" else 2.5
+            w = f(A, yy)
+            check(ctx, fn, "jaxfield/%s/%s" % (name, lab), E(got), w, hyps=[tm.ne(tm.lift(A), tm.const(Fraction(0), tm.REAL))],
+                  clause="(other %s field) == other %s value  (operand order preserved)" % (name[1:], name[1:]),
+                  replay=dict(kind="jaxfield", op=name, form=lab))
+    fn = ctx.function(DF.__pow__)
+    check(ctx, fn, "jaxfield/pow", E(fa ** 3), A * A * A, clause="field ** 3 == value ** 3")
+    fn = ctx.function(DF.__getitem__)
+    v = T("v", (3,))
+    ctx.fact("jaxfield/getitem", fn, DF(v)[1] is not None and tm.lift(E(DF(v)[1])) is tm.lift(E(v, (1,))), "field[i] must be value[i]")
+    ctx.fact("jaxfield/shape", ctx.function(DF.shape.fget), DF(v).shape == v.shape, "field.shape must be value.shape")
+    tup = DF(a, grad=1, div=2, curl=3, hess=4, grad3=5, grad4=6, grad5=7, grad6=8).astuple
+    ctx.fact("jaxfield/astuple-order", ctx.function(DF.astuple.fget), tup[1:] == (1, 2, 3, 4, 5, 6, 7, 8) and tup[0] is a,
+             "astuple must list value, grad, div, curl, hess, grad3..grad6 in this order (it feeds DiscreteField(*astuple))")
+    del op
+
+
+UNITS["jaxfield/operators"] = jaxfield_operators
